@@ -92,6 +92,9 @@ structure DevRun where
   script : List ScriptItem
   calls : List Call        -- most recent first
   downlinks : List (Nat × List Nat)
+  /-- capacity `D` of the device's downlink queue (`heapless::Vec<Downlink, D>`): `push` on a full
+  queue fails and the downlink is dropped (`let _ = dl.push(..)`) -/
+  dlCap : Nat := 8
   deriving Repr
 
 def DevRun.next (r : DevRun) : ScriptItem × DevRun :=
@@ -122,7 +125,9 @@ def swallow (o : Option RxOut) : Option RxOut :=
 
 def DevRun.deliver (r : DevRun) (o : Option RxOut) : DevRun :=
   match o with
-  | some o => (match o.downlink with | some d => { r with downlinks := d :: r.downlinks } | none => r)
+  | some o => (match o.downlink with
+    | some d => if r.downlinks.length < r.dlCap then { r with downlinks := d :: r.downlinks } else r
+    | none => r)
   | none => r
 
 /-- `window_complete` -/
